@@ -10,7 +10,12 @@ pub mod c07;
 pub mod c08;
 pub mod c09;
 pub mod c10;
+pub mod c13;
+pub mod c14;
+pub mod c15;
+pub mod c15_rates;
 pub mod c16;
+pub mod fmtgrid;
 pub mod c17;
 
 use crate::core::{Block, Report};
@@ -26,6 +31,9 @@ pub fn collect(prop: &str, blocks: &mut Vec<Block>, setup: &mut Report) {
         "C08" => c08::collect(blocks, setup),
         "C09" => c09::collect(blocks, setup),
         "C10" => c10::collect(blocks, setup),
+        "C13" => c13::collect(blocks, setup),
+        "C14" => c14::collect(blocks, setup),
+        "C15" => c15::collect(blocks, setup),
         "C16" => c16::collect(blocks, setup),
         "C17" => c17::collect(blocks, setup),
         "list" => {}
